@@ -82,14 +82,6 @@ def wfHostSA (netloc : Str) : Bool :=
   | '[' :: _ => true
   | h => noneOf ['%'] h
 
-/-- **the exact host condition of the suffix-aware round trip with suffix_trie.py inside**
-(`Props.C12.roundtrip_string_psl`): a bracketed literal (never suffix-processed), or a host that
-neither starts nor ends with a dot.  Outside it suffix_trie.py's split does not re-join to the
-host (it strips trailing dots; `.co.uk` is split into `("", "co.uk")`) and the suffix-aware stems
-lose the empty label: known finding KF-C12-2 -/
-def pslHostOK (h : Str) : Bool :=
-  h.head? == some '[' || (h.head? != some '.' && h.getLast? != some '.')
-
 /-- no `|` anywhere (the hypothesis of C12) -/
 def noBar (p : Parts) : Bool :=
   noneOf ['|'] p.scheme && noneOf ['|'] p.netloc && noneOf ['|'] p.path &&
@@ -112,6 +104,17 @@ def canonNetloc (netloc h : Str) : Str :=
 def rejoin (domain suffix : Str) : Str :=
   if domain = [] then suffix else domain ++ '.' :: suffix
 
+/-- the lower-cased hostname of a netloc, `parsed_url.hostname.lower()` (stems.py:68; what
+suffix_trie.py walks once the trailing dots are stripped) -/
+abbrev lowerHostname (netloc : Str) : Str := lower (pyHostname netloc)
+
+/-- the host the suffix-aware stems spell (since FX-C12-EMPTYLABELS), for the hostname `hn` and the
+split `(domain, suffix)`: `domain.suffix` — `suffix` alone when the domain is empty and the suffix
+is the whole stripped hostname —, followed by the trailing dots of `hn` -/
+def rejoinHost (hn domain suffix : Str) : Str :=
+  (if domain ≠ [] ∨ suffix.length < (rstripChars hn ['.']).length then domain ++ '.' :: suffix
+   else suffix) ++ List.replicate (hn.length - (rstripChars hn ['.']).length) '.'
+
 section
 variable (splitSuffix : Str → Option (Str × Str))
 
@@ -131,16 +134,23 @@ def expectedHost (sa : Bool) (netloc : Str) : Str :=
 def expectedParts (sa : Bool) (p : Parts) : Parts :=
   { p with netloc := canonNetloc p.netloc (expectedHost splitSuffix sa p.netloc) }
 
-/-- C08's clause "the two parts returned by split_suffix re-join to the lower-cased
-hostname", at the hostname of this netloc -/
+/-- C08's clause (`Props.C08.split_rejoin`) "the two parts returned by split_suffix re-join to the
+lower-cased hostname WITHOUT ITS TRAILING DOTS" (what suffix_trie.py walks): the first part is
+empty and the second is that string (the host is a bare suffix), or `first + "." + second` is it
+(the first part may be empty there: `.co.uk` → `("", "co.uk")`) — at the hostname of this netloc -/
 def SplitRejoins (netloc : Str) : Prop :=
-  ∀ d s, splitSuffix (pyHostname netloc) = some (d, s) → rejoin d s = lower (pyHostname netloc)
+  ∀ d s, splitSuffix (pyHostname netloc) = some (d, s) →
+    (d = [] ∧ s = rstripChars (lowerHostname netloc) ['.']) ∨
+      d ++ '.' :: s = rstripChars (lowerHostname netloc) ['.']
 
-/-- the form the theorems use: the suffix parts re-join to the lower-cased host of the netloc
-(follows from `SplitRejoins` on the grammar: `Props.C12.splitRejoins_of_c08`,
-`Props.C12.splitLaw_of_class`; says nothing about a bracketed literal: `hostSplit` is `none`) -/
+/-- the form the theorems use: the host the suffix-aware stems spell (`rejoinHost`: the two parts,
+the lone leading dot, the trailing dots) is the lower-cased host of the netloc (follows from
+`SplitRejoins` on the grammar, for EVERY plain host, empty labels included:
+`Props.C12.splitRejoins_of_c08`, `Props.C12.splitLaw_of_class`; says nothing about a bracketed
+literal: `hostSplit` is `none`) -/
 def SplitLaw (n : Str) : Prop :=
-  ∀ d s, hostSplit splitSuffix n = some (d, s) → rejoin d s = lower (specHost n)
+  ∀ d s, hostSplit splitSuffix n = some (d, s) →
+    rejoinHost (lowerHostname n) d s = lower (specHost n)
 
 /-- C08's "letter case does not matter" (`Props.C08.split_case_insensitive`: two non-special
 hostnames that differ in ASCII letter case only get the same split), at the hostname of this
